@@ -25,6 +25,9 @@ func (in *Interp) atomCode(s string) uint64 {
 		in.atomCodes[""] = 0
 		in.atomNames = append(in.atomNames, "")
 		c = 1
+		if in.lowerUsed {
+			in.addLowerFact("")
+		}
 	}
 	in.atomCodes[s] = c
 	in.atomNames = append(in.atomNames, s)
